@@ -55,6 +55,8 @@ def main():
                      what='the arithmetic the code states is no longer the one the model was proved equal to')
     try:
         mod.run(run)
+        import found
+        found.replay(run, a.pid)
     except Exception:
         # The harness is written not to raise on the unchanged tree.  An exception here means the real code (or the model
         # driver) behaved in a way the correspondence does not cover: the correspondence no longer checks, which is
